@@ -25,10 +25,12 @@ namespace CR.Assign
 abbrev Id := Int
 abbrev T := Int
 
-/-- static obstacle / dynamic obstacle with a TrajectoryPrediction / dynamic obstacle with `prediction = None`.
-    (SetBasedPrediction is outside the property's quantifier and not modelled.) -/
+/-- static obstacle / dynamic obstacle with a TrajectoryPrediction / dynamic obstacle with `prediction = None` /
+    dynamic obstacle with a SetBasedPrediction (outside the property's quantifier; the code never enters it into a
+    registry: scenario.py:803, 824, and `assign_obstacles_to_lanelets` raises AttributeError on it because a
+    SetBasedPrediction has no `shape_lanelet_assignment` / `center_lanelet_assignment`). -/
 inductive Kind where
-  | static | dynTraj | dynNone
+  | static | dynTraj | dynNone | dynSet
   deriving DecidableEq, Repr, Inhabited
 
 /-- What is fixed during a history: the lanelet ids of the network, and per obstacle id its kind, initial time step,
@@ -185,7 +187,7 @@ def addToLanelets (E : Env) (s : St) (o : Id) : Res St :=
   if E.kind o = Kind.static then do
     let r ← addStaticReg E o (s.fwd o) s.sreg
     pure { s with sreg := r }
-  else if E.lanelets = [] then .ok s
+  else if E.kind o = Kind.dynSet ∨ E.lanelets = [] then .ok s     -- `isinstance(prediction, SetBasedPrediction) or len(…) == 0`
   else do
     let r1 ← regInit E o (s.fwd o) s.dreg
     let r2 ← regPred E o (s.fwd o) r1
@@ -203,7 +205,7 @@ def remove (E : Env) (s : St) (o : Id) : Res St :=
     let r ← removeStaticReg E o (s.fwd o) s.sreg
     pure { s with sreg := r, statics := s.statics.filter (· ≠ o) }
   else if o ∈ s.dynamics then
-    if E.lanelets = [] then .ok { s with dynamics := s.dynamics.filter (· ≠ o) }
+    if E.kind o = Kind.dynSet ∨ E.lanelets = [] then .ok { s with dynamics := s.dynamics.filter (· ≠ o) }
     else do
       let r1 ← unregInit E o (s.fwd o) s.dreg
       let r2 ← unregPred E o (s.fwd o) r1
@@ -215,7 +217,8 @@ def remove (E : Env) (s : St) (o : Id) : Res St :=
 /-- attribute updates of `assign_dynamic_obstacle_shape_at_time` on the obstacle object `f` at time step `t`
     (`co` = `use_center_only`); returns the lanelet ids to register and the new attributes.
     `prediction.…_assignment[t] = ids` on a `None` dict is a TypeError. -/
-def assignFwd (E : Env) (co : Bool) (o : Id) (f : Fwd) (t : T) : Res (List Id × Fwd) := do
+def assignFwd (E : Env) (co : Bool) (o : Id) (f : Fwd) (t : T) : Res (List Id × Fwd) :=
+  if E.kind o = Kind.dynSet then .error .attr else do      -- `obstacle.prediction.center_lanelet_assignment[…]`
   let cids := E.cen o t
   -- `if obstacle.prediction is not None: obstacle.prediction.center_lanelet_assignment[time_step] = lanelet_ids_center`
   let f1 ← if E.kind o = Kind.dynTraj then
@@ -261,6 +264,8 @@ def initDicts (co : Bool) (f : Fwd) : Fwd :=
 /-- body of `for obs_id in obstacle_ids:` -/
 def assignObs (E : Env) (ts : Option (List T)) (co : Bool) (s : St) (o : Id) : Res St :=
   if o ∈ s.dynamics then
+    -- `obs.prediction.shape_lanelet_assignment` / `.center_lanelet_assignment` of a SetBasedPrediction: AttributeError
+    if E.kind o = Kind.dynSet then .error .attr else
     let steps : List T := match ts with
       | some l => l
       | none => if E.kind o = Kind.dynTraj then trange (E.t0 o) (E.len o) else [E.t0 o]
@@ -283,7 +288,9 @@ def readStatic (E : Env) (s : St) (o : Id) : Res St := do
 
 /-- DynamicObstacleFactory with lanelet_assignment: the initial state is assigned (and registered) for a trajectory
     prediction and for no prediction alike; the per-time-step dicts exist only with a trajectory. -/
-def readDynamic (E : Env) (s : St) (o : Id) : Res St := do
+def readDynamic (E : Env) (s : St) (o : Id) : Res St :=
+  -- `<occupancySet>` / `set_based_prediction`: the initial lanelet sets stay `set()`, nothing is registered
+  if E.kind o = Kind.dynSet then .ok (s.setFwd o { initCenter := some [], initShape := some [] }) else do
   let t0 := E.t0 o
   let r1 ← regDyn E o t0 (E.shp o t0) s.dreg
   match E.kind o with
